@@ -178,8 +178,48 @@ func (s *subscription) Publish(ctx context.Context, message []byte) error {
 	return nil
 }
 
+// HoldPeers makes every later Peers() lookup of peer p on topic park until the
+// returned release function is called (a slow peer lookup).
+func (w *World) HoldPeers(p int, topic string) (release func(), parked func() int) {
+	gate := make(chan struct{})
+	w.mu.Lock()
+	if w.peerHolds == nil {
+		w.peerHolds = map[string]chan struct{}{}
+		w.peerParked = map[string]*int64{}
+	}
+	k := fmt.Sprintf("%d|%s", p, topic)
+	w.peerHolds[k] = gate
+	var n int64
+	w.peerParked[k] = &n
+	w.mu.Unlock()
+	var once sync.Once
+	return func() {
+			once.Do(func() {
+				w.mu.Lock()
+				delete(w.peerHolds, k)
+				w.mu.Unlock()
+				close(gate)
+			})
+		}, func() int {
+			return int(atomic.LoadInt64(&n))
+		}
+}
+
 func (s *subscription) Peers(ctx context.Context) ([]peer.ID, error) {
 	w := s.w
+	k := fmt.Sprintf("%d|%s", s.p.Idx, s.topic)
+	w.mu.Lock()
+	gate := w.peerHolds[k]
+	cnt := w.peerParked[k]
+	w.mu.Unlock()
+	if gate != nil {
+		atomic.AddInt64(cnt, 1)
+		select {
+		case <-gate:
+		case <-ctx.Done():
+			return nil, ctx.Err()
+		}
+	}
 	w.mu.Lock()
 	defer w.mu.Unlock()
 	var out []peer.ID
